@@ -23,6 +23,7 @@ import (
 	"sort"
 	"strconv"
 	"strings"
+	"unicode"
 
 	"github.com/RoaringBitmap/roaring/v2"
 	"github.com/grafana/regexp"
@@ -432,8 +433,7 @@ func (q *Substring) setCase(k string) {
 	case "no":
 		q.CaseSensitive = false
 	case "auto":
-		// TODO - unicode
-		q.CaseSensitive = (q.Pattern != string(toLower([]byte(q.Pattern))))
+		q.CaseSensitive = strings.IndexFunc(q.Pattern, unicode.IsUpper) >= 0
 	}
 }
 
